@@ -42,6 +42,18 @@ func randName(rng *rand.Rand, p genParams) []string {
 			out = append(out, fmt.Sprintf("k%d", 1+rng.Intn(p.NChunks)))
 		}
 	}
+	// one hostile name in twenty consists of bullet symbols only ("--", "**", "- -", "+"): still a name
+	if p.Hostile && rng.Intn(20) == 0 {
+		sym := []string{"HY", "AS", "PL"}[rng.Intn(3)]
+		out = []string{sym}
+		for k := rng.Intn(3); k > 0; k-- {
+			if rng.Intn(4) == 0 {
+				out = append(out, "SP")
+			}
+			out = append(out, sym)
+		}
+		return out
+	}
 	// never blank-only, never ending in CR (none generated), at least one chunk
 	hasChunk := false
 	for _, t := range out {
